@@ -151,6 +151,9 @@ func runC06History(evs []c06Ev, ackMs, maxRt, nstart int) string {
 	fmt.Fprintf(&sb, "Hist %d %d %d [", ackMs, maxRt, nstart)
 	var items []string
 	for _, e := range evs {
+		if activeTracker != nil && activeTracker.bad() {
+			break // C12: the lifecycle trace already contains a violation; the rest would only wait for watchdogs
+		}
 		expectRet := 0
 		if e.Kind == "ack" || e.Kind == "rst" || e.Kind == "piggy" {
 			// the peer can only answer a request it has seen: skip events that refer to a request
